@@ -1054,6 +1054,26 @@ def _prec(run, P):
            construct="map_constant parenthesizes a signed constant where the "
                      "enclosing precedence exceeds that of a sum",
            why="'-2**2' is not '(-2)**2': the interpreter computes 4, generated code -4")
+    # non-finite constants: printed through the built-in type's repr
+    e = f.params[1]
+    nf = [n for n in ast.walk(f.node) if isinstance(n, ast.If) and any(
+        isinstance(x, ast.Call) and (dotted(x.func) or "").endswith(("isinf", "isnan"))
+        for x in ast.walk(n.test))]
+    ok = False
+    raw = []
+    if nf:
+        reprs = [x for s_ in nf[0].body for x in ast.walk(s_)
+                 if isinstance(x, ast.Call) and dotted(x.func) == "repr" and x.args]
+        raw = [norm(x) for x in reprs
+               if not (isinstance(x.args[0], ast.Call) and dotted(x.args[0].func) in ("float", "complex")
+                       and x.args[0].args and dotted(x.args[0].args[0]) == e)]
+        ok = bool(reprs) and not raw
+    run.ob("C01.prec", f, nf[0] if nf else f.node, ok,
+           construct="map_constant: inf / nan are printed as float('<repr of float(expr)>') "
+                     "(complex likewise)" + (f"; found {raw}" if raw else ""),
+           why="repr() of a numpy scalar is 'np.float64(inf)', which float() cannot read: "
+               "the generated stepper raises ValueError where the interpreter computes "
+               "with inf")
 
 
 def _genfunc(run, P):
